@@ -55,10 +55,14 @@ fsvars == <<exists, gen, files, away>>
 
 EmptyFiles == [n \in Names |-> 0]
 Fresh(cd) == [d \in D |-> IF d \in cd /\ exists[d] THEN files[d][SpecName] ELSE 0]
-\* what a rescan indexes, given the tracked map t it finds: with the F18 repair a configured directory that was
+\* what a rescan indexes: with the F18 repair a configured directory that was
 \* missing when the watches were last updated is left out even if it exists by now - it is not watched, so nothing
 \* would tell the cache when it changes or disappears again; the next update() that can watch it brings it in
-Scan(cd, t) == [d \in D |-> IF d \in cd /\ exists[d] /\ (~FIX_SCANWATCHED \/ t[d] = "t") THEN files[d][SpecName] ELSE 0]
+\* (only in auto mode with a watcher, and judged by the CURRENT dirErrors map er: its "could not be watched, no such
+\* directory" entry)
+Scan(cd, er) == [d \in D |-> IF d \in cd /\ exists[d]
+                                 /\ ~(FIX_SCANWATCHED /\ auto /\ wstate[cur] \notin {"nil", "none"} /\ er[d] = "monitor")
+                              THEN files[d][SpecName] ELSE 0]
 Ev(o, d, n) == [op |-> o, d |-> d, n |-> n]
 Act(a, d, n, c, w, nd, na) == [a |-> a, d |-> d, n |-> n, c |-> c, w |-> w, nd |-> nd, na |-> na]
 Rec(x) == hist' = IF RECORD THEN Append(hist, x) ELSE hist
@@ -229,7 +233,7 @@ GorHandle(w) ==
 \* second half: rescan, release the mutex
 GorScan(w) ==
   /\ gor[w].pc = "scan"
-  /\ idx' = Scan(cdirs, tracked)
+  /\ idx' = Scan(cdirs, errs[cur])
   /\ gor' = [gor EXCEPT ![w] = [pc |-> IF wstate[w] = "closed" THEN "dead" ELSE "recv", ev |-> NoEv]]
   /\ UNCHANGED <<exists, gen, files, away, cur, auto, cdirs, wstate, tracked, watches, kq, ub, infl, errs, short, fsops, confs, obs>>
   /\ Rec(Act("scan", "", "", 0, w, {}, FALSE))
@@ -244,7 +248,7 @@ Query ==
      THEN /\ idx' = Fresh(cdirs) /\ UNCHANGED <<tracked, watches, errs>>     \* no watcher: every query rescans
      ELSE IF auto
      THEN /\ ApplyUpdate(cur, {})
-          /\ idx' = IF UpdateResult(cur, {}).changed THEN Scan(cdirs, tracked') ELSE idx
+          /\ idx' = IF UpdateResult(cur, {}).changed THEN Scan(cdirs, errs'[cur]) ELSE idx
      ELSE UNCHANGED <<tracked, watches, errs, idx>>
   /\ obs' = idx'
   /\ UNCHANGED <<exists, gen, files, away, cur, auto, cdirs, wstate, kq, ub, infl, gor, short, fsops, confs>>
